@@ -154,11 +154,21 @@ def rule_flag_timeout(ctx):
 def rule_main(ctx):
     p = ctx.p
     bc, f = _wfe(p)
-    paths = run_method(p, f)
+    paths = []
+    for tmo in (None, 5, 0.5):
+        for pen in (True, False):
+            kw = {k: Term("param", k) for k in ("device", "vector", "element", "event_type", "expect", "initial", "check", "polling_delay", "polling_interval")}
+            kw["timeout"] = Const(tmo)
+            kw["polling_enabled"] = Const(pen)
+            ps = run_method(p, f, self_val=Term("param", "self", hint=bc), args=[], kwargs=kw)
+            for pa in ps:
+                pa.cfg = (tmo, pen)
+            paths.extend(ps)
     ctx.paths_enumerated += len(paths)
     bad = False
     n = 0
     for pa in paths:
+        tmo, pen = pa.cfg
         waits = [e for e in pa.events if e.kind == "await" and "wait()" in show(e.data["value"])]
         if not waits:
             continue
@@ -200,18 +210,12 @@ def rule_main(ctx):
         tasks = pa.calls(method="create_task")
         poll_tasks = [e for e in tasks if e.data["args"] and isinstance(e.data["args"][0], Term) and isinstance(e.data["args"][0].args[0], Fn) and e.data["args"][0].args[0].fi.name == "poll"]
         to_tasks = [e for e in tasks if e.data["args"] and isinstance(e.data["args"][0], Term) and isinstance(e.data["args"][0].args[0], Fn) and e.data["args"][0].args[0].fi.name == "timeout_check"]
-        pe = [e.data["truth"] for e in pa.assumes() if show(e.data["cond"]) == "polling_enabled"]
-        if pe and (len(poll_tasks) == 1) != pe[0]:
-            ctx.violated("C17.POLL", f.short, f"polling_enabled={pe[0]} but {len(poll_tasks)} polling tasks are created", fi=f, text="poll-task")
+        if (len(poll_tasks) == 1) != pen or len(poll_tasks) > 1:
+            ctx.violated("C17.POLL", f.short, f"polling_enabled={pen} but {len(poll_tasks)} polling tasks are created", fi=f, text=f"poll-task:{pen}:{len(poll_tasks)}")
             bad = True
-        if not pe and poll_tasks:
-            ctx.violated("C17.POLL", f.short, "a polling task is created regardless of polling_enabled", fi=f, text="poll-task-unconditional")
-            bad = True
-        tn = [e for e in pa.assumes() if show(e.data["cond"]) in ("(timeout is not None)",)]
-        tp = [e for e in pa.assumes() if show(e.data["cond"]) in ("(timeout > 0)",)]
-        want_to = bool(tn and tn[0].data["truth"] and tp and tp[0].data["truth"])
-        if (len(to_tasks) == 1) != want_to:
-            ctx.violated("C17.TIMEOUT", f.short, f"timeout given and positive={want_to} but {len(to_tasks)} timeout tasks are created", fi=f, text=f"timeout-task:{want_to}:{len(to_tasks)}")
+        want_to = tmo is not None
+        if (len(to_tasks) == 1) != want_to or len(to_tasks) > 1:
+            ctx.violated("C17.TIMEOUT", f.short, f"timeout={tmo!r} but {len(to_tasks)} timeout tasks are created", fi=f, text=f"timeout-task:{want_to}:{len(to_tasks)}")
             bad = True
         if any(e.idx > w.idx for e in tasks):
             ctx.violated("C17.TIMEOUT", f.short, "a task is created after the wait", fi=f, text="task-after-wait")
@@ -221,7 +225,7 @@ def rule_main(ctx):
     elif not bad:
         ctx.holds("C17.RELEASE", f.short, f"{n} paths: registered before the wait, removed by uuid after it, before raise/return", fi=f)
         ctx.holds("C17.EXCL", f.short, "raise iff result.timeout, else return result.event", fi=f)
-        ctx.holds("C17.TIMEOUT", f.short, "timeout task iff timeout is not None and > 0; polling task iff polling_enabled", fi=f)
+        ctx.holds("C17.TIMEOUT", f.short, "timeout task iff a (positive) timeout was given; polling task iff polling_enabled (timeout in {None, 5, 0.5} x polling in {T,F})", fi=f)
 
 
 def rule_poll(ctx):
